@@ -49,9 +49,9 @@ func init() {
 }
 
 type rpki struct {
-	pool                        *x509.CertPool
-	srv, cli, other             tls.Certificate
-	clientBase                  *tls.Config
+	pool            *x509.CertPool
+	srv, cli, other tls.Certificate
+	clientBase      *tls.Config
 }
 
 func mkRealPKI() *rpki {
@@ -141,7 +141,7 @@ type quietT struct{ failed []string }
 func (t *quietT) Errorf(format string, args ...interface{}) {
 	t.failed = append(t.failed, fmt.Sprintf(format, args...))
 }
-func (t *quietT) FailNow()              { panic("testdirectory: FailNow: " + fmt.Sprint(t.failed)) }
+func (t *quietT) FailNow()             { panic("testdirectory: FailNow: " + fmt.Sprint(t.failed)) }
 func (t *quietT) Log(a ...interface{}) {}
 
 // c18cell runs one cell of the matrix. satisfies = the behaviour satisfies the configuration.
